@@ -10,14 +10,15 @@ from collections import Counter
 
 import common
 from common import Ctx, exc_name
-from gridsim import RefGrid, Tokens, apply_op, enc_opt
+from gridsim import RefGrid, Tokens, apply_op, enc_opt  # noqa: F401
 
 PID = "C12"
 PROPS_MODULE = "NumbersModel.Props.C12"
 THEOREMS = [f"NumbersModel.Props.C12.{t}" for t in (
     "consistent_init", "merge_picture", "merge_step", "merge_picture_list", "merge_ranges_exact", "mergemap_roundtrip",
     "mergemap_roundtrip_needs_bound", "pack_bound_is_sharp", "open_eq_reloaded", "consistent_write",
-    "consistent_edit", "move_arithmetic_is_spec", "shift_spec_sound", "history_consistent", "history_open_eq_reloaded")]
+    "consistent_edit", "edit_values", "move_arithmetic_is_spec", "shift_spec_sound", "shift_spec_insert_cells", "shift_spec_delete_cells",
+    "history_consistent", "history_open_eq_reloaded")]
 PARTIAL = {
     "open_eq_reloaded": "proved for consistent tables - by history_consistent: after any history of merges, writes outside "
     "placeholders and row/column insertions/deletions anywhere (no value written into a placeholder: known finding "
@@ -42,13 +43,17 @@ MANIFEST = {
             "(any start, any count, with or without default) on a consistent table succeeds and leaves a consistent table "
             "whose rectangles are shiftRects of the old ones (explicit specification: move with the cells / untouched / grow / "
             "shrink / cease; move_arithmetic_is_spec ties the code's max-arithmetic to it, shift_spec_sound shows it keeps "
-            "rectangles in the table and disjoint); history_consistent / history_open_eq_reloaded - by induction over any "
+            "rectangles in the table and disjoint, shift_spec_insert_cells / shift_spec_delete_cells state it cell by cell: a cell is "
+            "in the rectangle iff its new position is in the new one, new cells belong to it iff the insertion was strictly "
+            "inside); history_consistent / history_open_eq_reloaded - by induction over any "
             "history of merges, writes outside placeholders and row/column edits the open document and the reopened file "
             "show the same picture. Tied to the code by lock-step scenarios on the real API compared cell by cell (class, "
             "value, is_merged, size, rect, merge_ranges) open vs model vs reopened after every step, plus an independent "
             "picture oracle (plain value grid + rectangle list that follows the surviving rows/columns of each rectangle).",
     "note": "fixes/C12-merge-placeholders.patch repairs the placeholder loops; fixes/C12-merge-map-shift.patch makes the four "
-            "row/column edits keep the merge map and the cells' merge state in step (Table._move_merges). Two defects are "
+            "row/column edits keep the merge map and the cells' merge state in step (Table._move_merges); "
+            "fixes/C12-stale-merge-owner-records.patch makes save drop the merge ranges a Numbers-written table was loaded with "
+            "(they are all in the merge region map), so moved ranges do not come back next to their old positions. Two defects are "
             "listed as known findings, not fixed: a value written into a placeholder is visible on the open document and "
             "lost on reload; origins with row >= 65536 do not survive save.",
     "technique": "Lean 4 proof (loop invariants over the (data, map) pair, extensional map reasoning, bit-packing "
@@ -633,6 +638,81 @@ def fixture_merges(ctx: Ctx):
                               + ("" if got2[1] == want_cells or got2[0] != want_ranges else " (cell states differ)"), where)
 
 
+def fixture_edits(ctx: Ctx):
+    """documents written by Numbers that contain merged regions: one row/column insertion or deletion placed relative to
+    one of the existing rectangles; the rectangles expected afterwards come from the picture oracle (`Picture.apply`), the
+    open document and the reopened file must both show them (oracle only; the model's scenarios are on new documents)."""
+    from numbers_parser import Document
+    rng = ctx.rng
+    for name in FIXTURES_WITH_MERGES:
+        path = common.REPO / "tests/data" / name
+        if not path.exists():
+            continue
+        for variant in range(2 if ctx.quick else 8):
+            try:
+                doc = Document(str(path))
+            except Exception:  # noqa: BLE001  (unreadable fixtures are other properties)
+                break
+            tables = [(si, ti) for si, sh in enumerate(doc.sheets) for ti, tb in enumerate(sh.tables) if tb.merge_ranges]
+            if not tables:
+                break
+            si, ti = tables[(variant * 3) % len(tables)]
+            tb = doc.sheets[si].tables[ti]
+            nr, nc = tb.num_rows, tb.num_cols
+            if nr * nc > 1200:
+                continue
+            pic = Picture(nr, nc)
+            pic.rects = [parse_range(s) for s in sorted(tb.merge_ranges)]
+            q = rng.choice(pic.rects)
+            rows = rng.random() < 0.5
+            lo, hi = (q[0], q[2]) if rows else (q[1], q[3])
+            dim = nr if rows else nc
+            at = rng.choice([0, lo, min(lo + 1, dim - 1), hi, rng.randrange(lo, hi + 1)])
+            if rng.random() < 0.5:
+                op = ("ar" if rows else "ac", rng.choice([1, 2]), at, None)
+            else:
+                n = rng.choice([1, 2, hi - lo + 1])
+                if n >= dim:
+                    n = 1
+                op = ("dr" if rows else "dc", n, min(at, dim - n))
+            where = {"fixture": name, "sheet": si, "table": ti, "op": list(op), "merges": [list(r) for r in pic.rects]}
+            try:
+                apply_op(tb, op)
+            except Exception as e:  # noqa: BLE001
+                ctx.violation("fixture-edit-raises", f"{name}: {op} raised {exc_name(e)}: {e}", where)
+                continue
+            pic.apply(op)
+            want_ranges = sorted(a1(*r) if (r[0], r[1]) != (r[2], r[3]) else a1(*r).split(":")[0] for r in pic.rects)
+            want_cells = ["."] * (pic.grid.nr * pic.grid.nc)
+            for r0, c0, r1, c1 in pic.rects:
+                for r in range(r0, r1 + 1):
+                    for c in range(c0, c1 + 1):
+                        want_cells[r * pic.grid.nc + c] = f"A{r1 - r0 + 1}x{c1 - c0 + 1}" if (r, c) == (r0, c0) else f"P{r0},{c0},{r1},{c1}"
+            got = _merge_picture(tb)
+            if got != (want_ranges, want_cells):
+                ctx.violation("fixture-edit-open-picture", f"{name} sheet {si} table {ti}: merges {where['merges']}, then {op}: the open "
+                              f"document reports ranges {got[0]} (expected {want_ranges})"
+                              + ("" if got[1] == want_cells else "; cell states differ"), where)
+                continue
+            fd, tmp = tempfile.mkstemp(suffix=".numbers")
+            os.close(fd)
+            try:
+                doc.save(tmp)
+                got2 = _merge_picture(Document(tmp).sheets[si].tables[ti])
+            except Exception as e:  # noqa: BLE001
+                ctx.violation("fixture-edit-save-raises", f"{name}: save/reopen after {op} raised {exc_name(e)}: {e}", where)
+                continue
+            finally:
+                os.unlink(tmp)
+            ctx.count("documents written by Numbers with merged regions: one row/column edit at a rectangle, open vs reopened", 1)
+            ctx.mark(("fixture-edit", name, si, ti, op))
+            if got2 != (want_ranges, want_cells):
+                ctx.violation("fixture-edit-open-vs-reloaded",
+                              f"{name} sheet {si} table {ti}: merges {where['merges']}, then {op}: the open document reports "
+                              f"{want_ranges}, the reopened file {got2[0]}"
+                              + ("" if got2[1] == want_cells or got2[0] != want_ranges else " (cell states differ)"), where)
+
+
 def run(ctx: Ctx):
     rng = ctx.rng
     with _pool() as pool:
@@ -696,10 +776,29 @@ def run(ctx: Ctx):
                  pool.map(run_scenario, jobs, chunksize=4), False)
     tall_probe(ctx)
     fixture_merges(ctx)
+    fixture_edits(ctx)
 
 
 def replay(data):
     i = data.get("input", {})
+    if "fixture" in i:                       # a document written by Numbers: redo the merge / the row-column edit, save, reopen
+        from numbers_parser import Document
+        doc = Document(str(common.REPO / "tests/data" / i["fixture"]))
+        tb = doc.sheets[i["sheet"]].tables[i["table"]]
+        before = _merge_picture(tb)[0]
+        if "op" in i:
+            apply_op(tb, tuple(i["op"]))
+        else:
+            tb.merge_cells(i["merge"])
+        fd, tmp = tempfile.mkstemp(suffix=".numbers")
+        os.close(fd)
+        try:
+            doc.save(tmp)
+            re = _merge_picture(Document(tmp).sheets[i["sheet"]].tables[i["table"]])
+        finally:
+            os.unlink(tmp)
+        now = _merge_picture(tb)
+        return {"before": before, "open": now[0], "reopened": re[0], "cells_equal": now[1] == re[1]}
     r = MergeRunner(tuple(i["shape"]))
     for sop in i["ops"]:
         if sop[0] == "sv" and r.history and r.history[-1] == ["sv"]:
